@@ -437,6 +437,38 @@ func copyPaths(ps canvas.Paths) canvas.Paths {
 	return out
 }
 
+// ulpTilt rebuilds a polygonal path with every third vertex (at random) moved by 1 or 2 ulps in x
+func ulpTilt(p *canvas.Path, r *rng.R) *canvas.Path {
+	segs, err := pd.Decode(p.Data())
+	if err != nil {
+		return p
+	}
+	q := &canvas.Path{}
+	for _, s := range segs {
+		x := s.X
+		if r.P(1, 3) {
+			dir := math.Inf(1)
+			if r.Bool() {
+				dir = math.Inf(-1)
+			}
+			for k := r.Range(1, 2); k > 0; k-- {
+				x = math.Nextafter(x, dir)
+			}
+		}
+		switch s.Cmd {
+		case 'M':
+			q.MoveTo(x, s.Y)
+		case 'L':
+			q.LineTo(x, s.Y)
+		case 'Z':
+			q.Close()
+		default:
+			return p
+		}
+	}
+	return q
+}
+
 // jitter rebuilds a polygonal path with every vertex moved by k*2^-29, |k| <= 4, in x and y
 func jitter(p *canvas.Path, r *rng.R) *canvas.Path {
 	segs, err := pd.Decode(p.Data())
@@ -489,7 +521,26 @@ func genPair(r *rng.R, settle bool) (pair, bool) {
 	var ipQ gen.IPoly
 	fam := ipP.Family
 	dx, dy := 0, 0
-	switch r.Intn(7) {
+	switch r.Intn(8) {
+	case 7:
+		// tiny: one or two triangles per operand on the grid 0..5 (dense coincidences: concurrent edges, vertices on edges)
+		tri := func() []gen.IPt {
+			for {
+				a, b, c := gen.IPt{X: r.Range(0, 5), Y: r.Range(0, 5)}, gen.IPt{X: r.Range(0, 5), Y: r.Range(0, 5)}, gen.IPt{X: r.Range(0, 5), Y: r.Range(0, 5)}
+				if (b.X-a.X)*(c.Y-a.Y)-(b.Y-a.Y)*(c.X-a.X) != 0 {
+					return []gen.IPt{a, b, c}
+				}
+			}
+		}
+		mk := func() gen.IPoly {
+			ip := gen.IPoly{Family: "tiny", Scale: 1}
+			for k := r.Range(1, 2); k > 0; k-- {
+				ip.Contours = append(ip.Contours, tri())
+			}
+			return ip
+		}
+		ipP, ipQ = mk(), mk()
+		fam = "tiny/tiny"
 	case 6:
 		// chain: contours whose bounding boxes touch each other one after the other, only the last one reaches the other
 		// operand: a hole (listed in random position, often first), its outer square, a tab overlapping the square; the
@@ -591,7 +642,12 @@ func genPair(r *rng.R, settle bool) (pair, bool) {
 	}
 	P := build(ipP, 0, 0)
 	Q := build(ipQ, dx, dy)
-	if r.P(1, 5) {
+	if r.P(1, 6) {
+		// ulp tilt: some vertices moved by one or two units in the last place of x (vertical edges become needles that lean over by
+		// 1e-16; intersections whose x rounds onto an end point)
+		P, Q = ulpTilt(P, r), ulpTilt(Q, r)
+		fam += "+ulp"
+	} else if r.P(1, 5) {
 		// leaning edges: every vertex moved by a few multiples of 2^-29 (1.9e-9), which turns vertical and coincident edges into
 		// edges that lean over by less than the snap grid and shared vertices into clusters inside one tolerance square
 		P, Q = jitter(P, r), jitter(Q, r)
